@@ -120,6 +120,14 @@ impl TestRunnerAdapter {
 
                         {
                             let mut runner = thread_runner.write().unwrap();
+                            // The state was read before the runner lock was taken: a pause or a step may have
+                            // stopped the machine in between (they hold the runner lock while they store the
+                            // new state), so look again before executing.
+                            if *thread_state.lock().unwrap() != MachineRunningState::Running {
+                                #[cfg(datatrash_mos_verif)]
+                                crate::verif_dbg::event("m_skip", "");
+                                continue;
+                            }
                             #[cfg(datatrash_mos_verif)]
                             let verif_pc0 = runner.cpu().get_program_counter();
                             #[cfg(datatrash_mos_verif)]
@@ -291,15 +299,16 @@ impl MachineAdapter for TestRunnerAdapter {
     }
 
     fn pause(&mut self) -> MosResult<()> {
-        let pc = self.runner.read().unwrap().cpu().get_program_counter();
+        // The machine thread executes instructions under the runner's write lock. Keeping the read lock
+        // until the new state is stored makes sure the stored pc is the pc the machine is halted at.
+        let runner = self.runner.clone();
+        let runner = runner.read().unwrap();
+        let pc = runner.cpu().get_program_counter();
         #[cfg(datatrash_mos_verif)]
-        let pc = {
-            // re-read under the lock so that the logged value is the one that is stored
-            let r = self.runner.read().unwrap();
-            let pc = r.cpu().get_program_counter();
-            crate::verif_dbg::event("p_read", &format!("\"pc\":{},\"cyc\":{}", pc, r.num_cycles()));
-            pc
-        };
+        crate::verif_dbg::event(
+            "p_read",
+            &format!("\"pc\":{},\"cyc\":{}", pc, runner.num_cycles()),
+        );
         #[cfg(datatrash_mos_verif)]
         crate::verif_dbg::perturb("p_between");
         self.update_state(MachineRunningState::Stopped(ProgramCounter::new(
